@@ -1,5 +1,6 @@
 /- Judge for engine `crash` (C01, C02, C08): `case ==> observation` ↦ `ok` | `bad …`. -/
 import AxVerif.Model.Recovery
+import AxVerif.Model.Journal
 namespace AxVerif.Drivers
 open AxVerif AxVerif.Durable AxVerif.Recovery
 
@@ -204,6 +205,44 @@ def traceEvents (ops : List Op) : Nat → List Char → Option Nat → Bool → 
     else if c == 'l' then Ev.force :: traceEvents ops fuel cs cur appendedYet
     else traceEvents ops fuel cs cur appendedYet
 
+/-! ### the journal rule on the real I/O trace
+
+`D<p>` page write, `Ja<b>` journal started for a checkpoint of `b` pages, `J<p>=` / `J<p>!` checkpointed contents of
+page `p` saved (the harness compares them with the file at the last `Ja`), `j` journal sync, `Jd` journal marked done,
+`t` log truncated, `u` journal emptied.  `Journal.accepts` (hypothesis of `restore_returns_checkpoint`) must accept. -/
+
+def digitsToNat (d : List Char) : Nat := ((String.ofList d).toNat?).getD 0
+
+def journalTrace : Nat → List Char → List AxVerif.Journal.Ev → Bool → List AxVerif.Journal.Ev × Bool
+  | 0, _, acc, same => (acc.reverse, same)
+  | _, [], acc, same => (acc.reverse, same)
+  | fuel + 1, c :: cs, acc, same =>
+    if c == 'D' then
+      let (d, r) := takeDigits cs
+      journalTrace fuel r (.write (digitsToNat d) 0 :: acc) same
+    else if c == 'J' then
+      match cs with
+      | 'a' :: r =>
+        let (d, r') := takeDigits r
+        journalTrace fuel r' (.start (digitsToNat d) :: acc) same
+      | 'd' :: r => journalTrace fuel r (.done :: acc) same
+      | _ =>
+        let (d, r) := takeDigits cs
+        match r with
+        | '=' :: r' => journalTrace fuel r' (.save (digitsToNat d) :: acc) same
+        | _ :: r' => journalTrace fuel r' (.save (digitsToNat d) :: acc) false
+        | [] => ((AxVerif.Journal.Ev.save (digitsToNat d) :: acc).reverse, false)
+    else if c == 'j' then journalTrace fuel cs (.jsync :: acc) same
+    else if c == 't' then journalTrace fuel cs (.dropLog :: acc) same
+    else if c == 'u' then journalTrace fuel cs (.empty :: acc) same
+    else journalTrace fuel cs acc same
+
+def journalProblem (tr : String) : List String :=
+  let (evs, same) := journalTrace (tr.length + 1) tr.toList [] true
+  (if AxVerif.Journal.accepts evs then [] else
+    ["J: the I/O trace breaks the journal rule (a checkpointed page overwritten before its contents were saved and synced, or the log dropped before the journal was marked done)"])
+  ++ (if same then [] else ["J: a journal entry does not hold the checkpointed contents of its page"])
+
 def traceOfObs (obs : String) : Option String :=
   match obs.splitOn " ## " with
   | [_, diag] => field (words diag) "trace"
@@ -252,8 +291,14 @@ def crash (flags : List String) (line : String) : String :=
                   else ["R1: a commit was acknowledged without a log force covering its COMMIT record"]
                 | none => ["R1: no I/O trace in the observation"]
               else []
+            let jProblem : List String :=
+              match traceOfObs obs with
+              | some tr => journalProblem tr
+              | none => ["J: no I/O trace in the observation"]
             let all := liveProblem ++ r1Problem ++ problems
-            if all.isEmpty then "ok" else s!"bad {joinWith "; " (all.take 6)} (+{all.length - min all.length 6} more)"
+            -- `bad-hyp`: no crash point shows wrong contents, but a hypothesis of the theorems fails on the real trace
+            if all.isEmpty then (if jProblem.isEmpty then "ok" else s!"bad-hyp restore_returns_checkpoint: {joinWith "; " jProblem}")
+            else s!"bad {joinWith "; " ((jProblem ++ all).take 6)} (+{(jProblem ++ all).length - min (jProblem ++ all).length 6} more)"
           | _, _ => "bad unparsable-observation"
     | _ => "bad-op"
   | _ => "bad-op"
